@@ -77,7 +77,7 @@ func (h *H) produceCase(ci int, newState bool, kind, version string, blocks int)
 	g := lib.NewChainGen(r, newState, opt) // used as a generator of diffs / transactions only
 	be, err := h.openBackend(kind, fmt.Sprintf("produce%d", ci))
 	if err != nil {
-		res.Note("open %s: %v", kind, err)
+		res.Fatalf("open %s: %v", kind, err)
 		return
 	}
 	defer func() { be.close() }()
@@ -136,7 +136,7 @@ func (h *H) produceCase(ci int, newState bool, kind, version string, blocks int)
 		blk := &core.Block{Header: hdr, Transactions: []core.Transaction{}, Receipts: []*core.TransactionReceipt{}}
 		_, comm, err := core.BlockHash(lib.DeepCopy(blk).(*core.Block), gdiff, g.Net, hdr.SequencerAddress, trieBackend)
 		if err != nil {
-			res.Note("produce: recompute genesis commitments: %v", err)
+			res.Fatalf("produce: recompute genesis commitments: %v", err)
 		}
 		rec := &Rec{Header: hdr, Txs: blk.Transactions, Rcs: blk.Receipts,
 			SU:   &core.StateUpdate{BlockHash: hdr.Hash, NewRoot: hdr.GlobalStateRoot, OldRoot: &felt.Zero, StateDiff: gdiff},
@@ -209,7 +209,7 @@ func (h *H) produceCase(ci int, newState bool, kind, version string, blocks int)
 		ref := lib.DeepCopy(blk).(*core.Block)
 		_, comm, err := core.BlockHash(lib.DeepCopy(blk).(*core.Block), diff, g.Net, blk.SequencerAddress, trieBackend)
 		if err != nil {
-			res.Note("produce: recompute commitments: %v", err)
+			res.Fatalf("produce: recompute commitments: %v", err)
 		}
 		rec := &Rec{Header: ref.Header, Txs: ref.Transactions, Rcs: ref.Receipts, SU: lib.DeepCopy(su).(*core.StateUpdate), Comm: comm,
 			Classes: map[felt.Felt]*core.DeclaredClassDefinition{}, NewCls: newState}
@@ -281,7 +281,7 @@ func (h *H) produceCase(ci int, newState bool, kind, version string, blocks int)
 	if be.reopen != nil {
 		ns, err := be.reopen()
 		if err != nil {
-			res.Note("reopen %s: %v", be.name, err)
+			res.Fatalf("reopen %s: %v", be.name, err)
 			return
 		}
 		check(ns, lib.NodeOn(ns, g.Net, newState), "(reopened)", "")
